@@ -129,6 +129,8 @@ def scopes_for_owner(owner: NixExpression) -> tuple[Scope, ...]:
         else:
             raise ResolutionError("with environment must resolve to an attribute set")
         if env_scope is not None:
+            env_scope = Scope(env_scope, owner=env_scope.owner)
+            env_scope.dynamic = True
             scopes.append(env_scope)
 
     from nix_manipulator.expressions.function.call import FunctionCall  # type: ignore
